@@ -161,6 +161,9 @@ URI_POOL = [None, "", "https://:8443/cb", "https://user@/cb", "https://user:pw@:
             "https:///nohost", "mailto:a@b", "app://callback", "https://c.example/x?y=1", "HTTPS://C.example"]
 
 
+STATEMENT_KEY = b"software-statement-key-0123456789abcdef"
+
+
 def make_reg_server(store, server_md, jwks_ok_holder):
     from authlib.oauth2.rfc7591 import ClientRegistrationEndpoint
     from authlib.oauth2.rfc7592 import ClientConfigurationEndpoint
@@ -180,8 +183,12 @@ def make_reg_server(store, server_md, jwks_ok_holder):
             store.saved.append(("save_client", dict(client_metadata)))
             return object()
 
+        # software statements (RFC 7591 section 2.3) are accepted when signed with the deployment's key; their claims take
+        # precedence over the body's and are validated like them
+        software_statement_alg_values_supported = ["HS256"]
+
         def resolve_public_key(self, request):
-            return None
+            return STATEMENT_KEY
 
     class C:
         def __init__(self, cid):
@@ -304,13 +311,29 @@ def run_registration(ctx):
             if rng.random() < 0.04:
                 payload = {}
             hdr = {"Authorization": "Bearer init-token" if tok else rng.choice(["Bearer wrong", ""])}
+            body = payload
+            if payload and rng.random() < 0.25:
+                # some members travel in a signed software statement, some of them ALSO in the body with another value
+                from authlib.jose import jwt as _jwt
+                other = gen_payload(rng)
+                names = [k for k in payload if k != "jwks"]
+                moved = rng.sample(names, min(len(names), rng.randint(1, 3)))
+                statement = {k: payload[k] for k in moved}
+                body = {k: v for k, v in payload.items() if k not in moved}
+                for k in moved:
+                    r = rng.random()
+                    if r < 0.5:
+                        body[k] = rng.choice([other.get(k, payload[k]), {"scope": "a", "grant_types": ["authorization_code"], "response_types": ["code"],
+                                                                           "redirect_uris": ["https://c.example/x"], "token_endpoint_auth_method": "client_secret_basic",
+                                                                           "client_uri": "https://c.example/x"}.get(k, payload[k])])
+                body["software_statement"] = _jwt.encode({"alg": "HS256"}, statement, STATEMENT_KEY).decode()
             try:
-                resp = srv.create_endpoint_response("client_registration", S.HReq("POST", "https://as.example/register", None, hdr, json.dumps(payload)))
+                resp = srv.create_endpoint_response("client_registration", S.HReq("POST", "https://as.example/register", None, hdr, json.dumps(body)))
                 got = outcome(resp, store)
             except Exception as e:  # noqa
                 got = ["escapes", type(e).__name__]
             mod = m.call("register", {"token_valid": tok, "server": server_md, "jwks_ok": jok, "payload": payload})
-            case = {"mode": mode, "token": tok, "server": server_md, "payload": payload}
+            case = {"mode": mode, "token": tok, "server": server_md, "payload": payload, "body": body if body is not payload else None}
         else:
             tok = rng.random() < 0.9
             target = rng.choice(["cid1", "cid1", "cid1", "ghost"])
